@@ -333,6 +333,9 @@ func (p Prop[C]) safeCheck(c C) (v *Violation) {
 
 func (p Prop[C]) count() int {
 	n := p.Quick
+	if f, err := strconv.ParseFloat(os.Getenv("VERIF_QUICK_SCALE"), 64); err == nil && f > 0 && Tier() != "thorough" {
+		n = int(float64(n) * f) // per-property depth factor from prop.json ("quick_scale"), set by the driver
+	}
 	if Tier() == "thorough" {
 		n = p.Thorough
 		// per-property depth factor from prop.json ("thorough_scale"), set by the driver
